@@ -73,6 +73,7 @@ pub struct AllocState {
 thread_local! {
     static GUARD: Cell<bool> = const { Cell::new(false) };
     static PAUSE: Cell<bool> = const { Cell::new(false) };
+    static QUARANTINE: Cell<bool> = const { Cell::new(true) };
     static ENABLED: Cell<bool> = const { Cell::new(false) };
     static CTX: Cell<Ctx> = const { Cell::new(Ctx::Outside) };
     static TRACE_FUSE: Cell<u32> = const { Cell::new(0) };
@@ -223,10 +224,11 @@ unsafe impl GlobalAlloc for TrackAlloc {
                     }
                     s.n_free += 1;
                     let raw_layout = Layout::from_size_align(b.size + 2 * pad, b.align).unwrap();
-                    if b.watched && cfg!(miri) {
+                    if b.watched && (cfg!(miri) || !QUARANTINE.try_with(|q| q.get()).unwrap_or(true)) {
                         // under Miri the block is really freed, so that Miri itself reports any
                         // later access; the event is recorded all the same
-                        s.blocks.get_mut(&addr).unwrap().released = true;
+                        // the address may be handed out again at once: forget the block
+                        s.blocks.remove(&addr);
                         let ctx = CTX.with(|c| c.get());
                         let _ = EVENTS.try_with(|e| e.borrow_mut().push(Ev::Free { block: addr, watched: true, ctx }));
                         unsafe { System.dealloc(raw, raw_layout) };
@@ -283,6 +285,7 @@ pub fn begin_case() {
     });
     CTX.with(|c| c.set(Ctx::Outside));
     TRACE_FUSE.with(|f| f.set(0));
+    QUARANTINE.with(|q| q.set(true));
     ENABLED.with(|e| e.set(true));
 }
 
@@ -349,6 +352,12 @@ pub fn end_case() -> CaseEnd {
 
 // ---------------------------------------------------------------------------------------------
 // capture / watch
+
+/// Quarantine released Gc blocks until the end of the case (default) or really free them at once,
+/// so that addresses are reused within a case (needed to observe address-identity confusions).
+pub fn set_quarantine(on: bool) {
+    QUARANTINE.with(|q| q.set(on));
+}
 
 pub fn capture_on() {
     guarded(|| {
